@@ -1,0 +1,211 @@
+//go:build verif
+
+package compiler
+
+// Machine-checked contracts for the bytecode emitter (see /verif/DESIGN.md, C29).
+// This file contains no declarations: it only carries specification comments
+// that the elkvc verification-condition generator reads.
+
+/*@
+// ---- the instruction stream under construction ----------------------------------------
+// ci(c, k): byte k of the function being compiled; clen(c): its length, which is also the
+// offset of the next instruction.  Emission only appends; patching rewrites exactly the two
+// operand bytes of one jump.  be16(c, k): the big-endian operand stored at k, k+1.
+spec fn clen(c *BytecodeCompiler) int = len(c.bytecode.Instructions)
+spec fn ci(c *BytecodeCompiler, k int) int = elem(c.bytecode.Instructions, k)
+spec fn be16(c *BytecodeCompiler, k int) int = ci(c, k) * 256 + ci(c, k + 1)
+spec fn wfC(c *BytecodeCompiler) bool = c != nil && wfFn(c.bytecode)
+spec fn started(c *BytecodeCompiler) bool = len(c.bytecode.LineInfoList) >= 1
+
+// Recording a compile error touches only the diagnostic list (its own lock, its own backing
+// array); the list is not part of the function being built.  Trusted here; the list's locking
+// discipline is the subject of C11.
+func (*BytecodeCompiler).addFailure
+  trusted
+  assigns all(diagnostic.SyncDiagnosticList).DiagnosticList
+
+func (*BytecodeCompiler).emit
+  props C29
+  requires wfC(c)
+  requires disjoint: sliceptr(bytes) + len(bytes) <= sliceptr(c.bytecode.Instructions) || sliceptr(c.bytecode.Instructions) + cap(c.bytecode.Instructions) <= sliceptr(bytes)
+  ensures wf: wfC(c) && c.bytecode == old(c.bytecode) && started(c)
+  ensures len: clen(c) == old(clen(c)) + 1 + len(bytes)
+  ensures op: ci(c, old(clen(c))) == op
+  ensures operands: forall k int :: 0 <= k && k < len(bytes) ==> ci(c, old(clen(c)) + 1 + k) == old(elem(bytes, k))
+  ensures prefix: forall k int :: 0 <= k && k < old(clen(c)) ==> ci(c, k) == old(ci(c, k))
+  ensures last: c.lastOpCode == op && c.secondToLastOpCode == old(c.lastOpCode)
+
+func (*BytecodeCompiler).emitByte
+  props C29
+  requires wfC(c) && started(c)
+  ensures wf: wfC(c) && c.bytecode == old(c.bytecode) && started(c)
+  ensures len: clen(c) == old(clen(c)) + 1
+  ensures val: ci(c, old(clen(c))) == byt
+  ensures prefix: forall k int :: 0 <= k && k < old(clen(c)) ==> ci(c, k) == old(ci(c, k))
+  ensures last: c.lastOpCode == old(c.lastOpCode) && c.secondToLastOpCode == old(c.secondToLastOpCode)
+
+func (*BytecodeCompiler).emitUint16
+  props C29
+  requires wfC(c) && started(c)
+  ensures wf: wfC(c) && c.bytecode == old(c.bytecode) && started(c)
+  ensures len: clen(c) == old(clen(c)) + 2
+  ensures val: be16(c, old(clen(c))) == n
+  ensures prefix: forall k int :: 0 <= k && k < old(clen(c)) ==> ci(c, k) == old(ci(c, k))
+  ensures last: c.lastOpCode == old(c.lastOpCode) && c.secondToLastOpCode == old(c.secondToLastOpCode)
+
+func (*BytecodeCompiler).emitUint32
+  props C29
+  requires wfC(c) && started(c)
+  ensures wf: wfC(c) && c.bytecode == old(c.bytecode) && started(c)
+  ensures len: clen(c) == old(clen(c)) + 4
+  ensures val: (be16(c, old(clen(c))) * 256 + ci(c, old(clen(c)) + 2)) * 256 + ci(c, old(clen(c)) + 3) == n
+  ensures prefix: forall k int :: 0 <= k && k < old(clen(c)) ==> ci(c, k) == old(ci(c, k))
+
+// ---- forward jumps ---------------------------------------------------------------------
+// emitJump appends `op 0xff 0xff` and returns the offset of the placeholder operand.
+func (*BytecodeCompiler).emitJump
+  props C29
+  requires wfC(c)
+  ensures wf: wfC(c) && c.bytecode == old(c.bytecode) && started(c)
+  ensures len: clen(c) == old(clen(c)) + 3
+  ensures ret: ret == old(clen(c)) + 1 && ret == clen(c) - 2
+  ensures op: ci(c, ret - 1) == op && ci(c, ret) == 255 && ci(c, ret + 1) == 255
+  ensures prefix: forall k int :: 0 <= k && k < old(clen(c)) ==> ci(c, k) == old(ci(c, k))
+  ensures last: c.lastOpCode == op
+
+// patching writes the operand exactly when it fits in 16 bits; nothing else changes.  When it
+// does not fit nothing is written (the failure is recorded in c.Errors, outside this contract)
+func (*BytecodeCompiler).patchJumpWithTarget
+  props C29
+  requires wfC(c) && 0 <= offset && offset + 2 <= clen(c) && 0 <= target
+  ensures wf: wfC(c) && c.bytecode == old(c.bytecode)
+  ensures len: clen(c) == old(clen(c))
+  ensures fits: target <= 65535 ==> be16(c, offset) == target
+  ensures others: forall k int :: 0 <= k && k < clen(c) && (target > 65535 || (k != offset && k != offset + 1)) ==> ci(c, k) == old(ci(c, k))
+
+// a patched forward jump lands on the offset that was the next instruction when it was
+// patched: the VM reads the operand at `offset`, advances past it (offset + 2) and adds it
+func (*BytecodeCompiler).patchJump
+  props C29
+  requires wfC(c) && 0 <= offset && offset + 2 <= clen(c)
+  ensures wf: wfC(c) && c.bytecode == old(c.bytecode)
+  ensures len: clen(c) == old(clen(c))
+  ensures lands: clen(c) - offset - 2 <= 65535 ==> offset + 2 + be16(c, offset) == clen(c)
+  ensures others: forall k int :: 0 <= k && k < clen(c) && (clen(c) - offset - 2 > 65535 || (k != offset && k != offset + 1)) ==> ci(c, k) == old(ci(c, k))
+
+// ---- backward jumps --------------------------------------------------------------------
+// emitLoop appends `LOOP hi lo`; the VM reads the operand, stands at the end of the
+// instruction and subtracts it: it lands on startOffset
+func (*BytecodeCompiler).emitLoop
+  props C29
+  requires wfC(c) && location != nil && location.Span != nil && location.EndPos != nil && 0 <= startOffset && startOffset <= clen(c)
+  ensures wf: wfC(c) && c.bytecode == old(c.bytecode) && started(c)
+  ensures len: clen(c) == old(clen(c)) + 3
+  ensures op: ci(c, old(clen(c))) == bytecode.LOOP
+  ensures lands: old(clen(c)) + 3 - startOffset <= 65535 ==> clen(c) - be16(c, old(clen(c)) + 1) == startOffset
+  ensures prefix: forall k int :: 0 <= k && k < old(clen(c)) ==> ci(c, k) == old(ci(c, k))
+
+// ---- instructions with an index operand -------------------------------------------------
+// Each family has short forms (the index is part of the opcode), an 8-bit and a 16-bit form.
+// xIdx(c, p): the index the VM decodes from the instruction at p (-1: not of the family);
+// xLen(c, p): the length of that instruction.  The emitter must pick a form that decodes to
+// exactly the index it was given, and append exactly that instruction.
+spec fn setLocalIdx(c *BytecodeCompiler, p int) int = ite(ci(c, p) == bytecode.SET_LOCAL_1, 1, ite(ci(c, p) == bytecode.SET_LOCAL_2, 2, ite(ci(c, p) == bytecode.SET_LOCAL_3, 3, ite(ci(c, p) == bytecode.SET_LOCAL_4, 4, ite(ci(c, p) == bytecode.SET_LOCAL8, ci(c, p + 1), ite(ci(c, p) == bytecode.SET_LOCAL16, be16(c, p + 1), -1))))))
+spec fn setLocalLen(c *BytecodeCompiler, p int) int = ite(ci(c, p) == bytecode.SET_LOCAL8, 2, ite(ci(c, p) == bytecode.SET_LOCAL16, 3, 1))
+spec fn getLocalIdx(c *BytecodeCompiler, p int) int = ite(ci(c, p) == bytecode.GET_LOCAL_1, 1, ite(ci(c, p) == bytecode.GET_LOCAL_2, 2, ite(ci(c, p) == bytecode.GET_LOCAL_3, 3, ite(ci(c, p) == bytecode.GET_LOCAL_4, 4, ite(ci(c, p) == bytecode.GET_LOCAL8, ci(c, p + 1), ite(ci(c, p) == bytecode.GET_LOCAL16, be16(c, p + 1), -1))))))
+spec fn getLocalLen(c *BytecodeCompiler, p int) int = ite(ci(c, p) == bytecode.GET_LOCAL8, 2, ite(ci(c, p) == bytecode.GET_LOCAL16, 3, 1))
+spec fn setUpvalueIdx(c *BytecodeCompiler, p int) int = ite(ci(c, p) == bytecode.SET_UPVALUE_0, 0, ite(ci(c, p) == bytecode.SET_UPVALUE_1, 1, ite(ci(c, p) == bytecode.SET_UPVALUE8, ci(c, p + 1), ite(ci(c, p) == bytecode.SET_UPVALUE16, be16(c, p + 1), -1))))
+spec fn setUpvalueLen(c *BytecodeCompiler, p int) int = ite(ci(c, p) == bytecode.SET_UPVALUE8, 2, ite(ci(c, p) == bytecode.SET_UPVALUE16, 3, 1))
+spec fn getUpvalueIdx(c *BytecodeCompiler, p int) int = ite(ci(c, p) == bytecode.GET_UPVALUE_0, 0, ite(ci(c, p) == bytecode.GET_UPVALUE_1, 1, ite(ci(c, p) == bytecode.GET_UPVALUE8, ci(c, p + 1), ite(ci(c, p) == bytecode.GET_UPVALUE16, be16(c, p + 1), -1))))
+spec fn getUpvalueLen(c *BytecodeCompiler, p int) int = ite(ci(c, p) == bytecode.GET_UPVALUE8, 2, ite(ci(c, p) == bytecode.GET_UPVALUE16, 3, 1))
+spec fn closeUpIdx(c *BytecodeCompiler, p int) int = ite(ci(c, p) == bytecode.CLOSE_UPVALUES_TO_1, 1, ite(ci(c, p) == bytecode.CLOSE_UPVALUES_TO_2, 2, ite(ci(c, p) == bytecode.CLOSE_UPVALUES_TO_3, 3, ite(ci(c, p) == bytecode.CLOSE_UPVALUES_TO8, ci(c, p + 1), ite(ci(c, p) == bytecode.CLOSE_UPVALUES_TO16, be16(c, p + 1), -1)))))
+spec fn closeUpLen(c *BytecodeCompiler, p int) int = ite(ci(c, p) == bytecode.CLOSE_UPVALUES_TO8, 2, ite(ci(c, p) == bytecode.CLOSE_UPVALUES_TO16, 3, 1))
+
+func (*BytecodeCompiler).emitSetLocalPop
+  props C29
+  requires wfC(c)
+  ensures wf: wfC(c) && c.bytecode == old(c.bytecode) && started(c)
+  ensures decodes: setLocalIdx(c, old(clen(c))) == index
+  ensures len: clen(c) == old(clen(c)) + setLocalLen(c, old(clen(c)))
+  ensures prefix: forall k int :: 0 <= k && k < old(clen(c)) ==> ci(c, k) == old(ci(c, k))
+
+func (*BytecodeCompiler).emitSetLocalNoPop
+  props C29
+  requires wfC(c)
+  ensures wf: wfC(c) && c.bytecode == old(c.bytecode) && started(c)
+  ensures dup: ci(c, old(clen(c))) == bytecode.DUP
+  ensures decodes: setLocalIdx(c, old(clen(c)) + 1) == index
+  ensures len: clen(c) == old(clen(c)) + 1 + setLocalLen(c, old(clen(c)) + 1)
+  ensures prefix: forall k int :: 0 <= k && k < old(clen(c)) ==> ci(c, k) == old(ci(c, k))
+
+func (*BytecodeCompiler).emitGetLocal
+  props C29
+  requires wfC(c)
+  ensures wf: wfC(c) && c.bytecode == old(c.bytecode) && started(c)
+  ensures decodes: getLocalIdx(c, old(clen(c))) == index
+  ensures len: clen(c) == old(clen(c)) + getLocalLen(c, old(clen(c)))
+  ensures prefix: forall k int :: 0 <= k && k < old(clen(c)) ==> ci(c, k) == old(ci(c, k))
+
+// BOX_LOCAL8 idx flag / BOX_LOCAL16 hi lo flag: the flag byte is 1 exactly for immutable boxes
+func (*BytecodeCompiler).emitBoxLocal
+  props C29
+  requires wfC(c)
+  ensures wf: wfC(c) && c.bytecode == old(c.bytecode) && started(c)
+  ensures short: index <= 255 ==> ci(c, old(clen(c))) == bytecode.BOX_LOCAL8 && ci(c, old(clen(c)) + 1) == index && ci(c, old(clen(c)) + 2) == ite(immutable, 1, 0) && clen(c) == old(clen(c)) + 3
+  ensures long: index > 255 ==> ci(c, old(clen(c))) == bytecode.BOX_LOCAL16 && be16(c, old(clen(c)) + 1) == index && ci(c, old(clen(c)) + 3) == ite(immutable, 1, 0) && clen(c) == old(clen(c)) + 4
+  ensures prefix: forall k int :: 0 <= k && k < old(clen(c)) ==> ci(c, k) == old(ci(c, k))
+
+func (*BytecodeCompiler).emitSetUpvaluePop
+  props C29
+  requires wfC(c)
+  ensures wf: wfC(c) && c.bytecode == old(c.bytecode) && started(c)
+  ensures decodes: setUpvalueIdx(c, old(clen(c))) == index
+  ensures len: clen(c) == old(clen(c)) + setUpvalueLen(c, old(clen(c)))
+  ensures prefix: forall k int :: 0 <= k && k < old(clen(c)) ==> ci(c, k) == old(ci(c, k))
+
+func (*BytecodeCompiler).emitSetUpvalueNoPop
+  props C29
+  requires wfC(c)
+  ensures wf: wfC(c) && c.bytecode == old(c.bytecode) && started(c)
+  ensures dup: ci(c, old(clen(c))) == bytecode.DUP
+  ensures decodes: setUpvalueIdx(c, old(clen(c)) + 1) == index
+  ensures len: clen(c) == old(clen(c)) + 1 + setUpvalueLen(c, old(clen(c)) + 1)
+  ensures prefix: forall k int :: 0 <= k && k < old(clen(c)) ==> ci(c, k) == old(ci(c, k))
+
+func (*BytecodeCompiler).emitGetUpvalue
+  props C29
+  requires wfC(c)
+  ensures wf: wfC(c) && c.bytecode == old(c.bytecode) && started(c)
+  ensures decodes: getUpvalueIdx(c, old(clen(c))) == index
+  ensures len: clen(c) == old(clen(c)) + getUpvalueLen(c, old(clen(c)))
+  ensures prefix: forall k int :: 0 <= k && k < old(clen(c)) ==> ci(c, k) == old(ci(c, k))
+
+func (*BytecodeCompiler).emitCloseUpvalues
+  props C29
+  requires wfC(c)
+  ensures wf: wfC(c) && c.bytecode == old(c.bytecode) && started(c)
+  ensures decodes: closeUpIdx(c, old(clen(c))) == index
+  ensures len: clen(c) == old(clen(c)) + closeUpLen(c, old(clen(c)))
+  ensures prefix: forall k int :: 0 <= k && k < old(clen(c)) ==> ci(c, k) == old(ci(c, k))
+
+// ---- instructions with a count operand ---------------------------------------------------
+// a count that fits in 8 bits uses the 8-bit opcode, one that fits in 16 bits the 16-bit opcode
+// with a big-endian operand; a larger count emits nothing (a compile error is recorded)
+func (*BytecodeCompiler).emitNewCollection
+  props C29
+  requires wfC(c) && location != nil && location.Span != nil && location.EndPos != nil && size >= 0
+  ensures wf: wfC(c) && c.bytecode == old(c.bytecode)
+  ensures short: size <= 255 ==> ci(c, old(clen(c))) == opcode8 && ci(c, old(clen(c)) + 1) == size && clen(c) == old(clen(c)) + 2
+  ensures long: 255 < size && size <= 65535 ==> ci(c, old(clen(c))) == opcode16 && be16(c, old(clen(c)) + 1) == size && clen(c) == old(clen(c)) + 3
+  ensures none: size > 65535 ==> clen(c) == old(clen(c))
+  ensures prefix: forall k int :: 0 <= k && k < old(clen(c)) ==> ci(c, k) == old(ci(c, k))
+
+func (*BytecodeCompiler).emitInstantiate
+  props C29
+  requires wfC(c) && location != nil && location.Span != nil && location.StartPos != nil && args >= 0
+  ensures wf: wfC(c) && c.bytecode == old(c.bytecode)
+  ensures short: args <= 255 ==> ci(c, old(clen(c))) == bytecode.INSTANTIATE8 && ci(c, old(clen(c)) + 1) == args && clen(c) == old(clen(c)) + 2
+  ensures long: 255 < args && args <= 65535 ==> ci(c, old(clen(c))) == bytecode.INSTANTIATE16 && be16(c, old(clen(c)) + 1) == args && clen(c) == old(clen(c)) + 3
+  ensures none: args > 65535 ==> clen(c) == old(clen(c))
+  ensures prefix: forall k int :: 0 <= k && k < old(clen(c)) ==> ci(c, k) == old(ci(c, k))
+@*/
